@@ -557,8 +557,9 @@ def check(prop, tier, seed, budget_override, workers):
     # ---- evidence
     wall = time.time() - t_start
     counters = dict(res['counters'])
-    fired = {k[6:]: v for k, v in counters.items() if k.startswith('fired.')}
-    probes = {k: v for k, v in counters.items() if not k.startswith('fired.')}
+    FAULT_PREFIXES = ('fired.', 'rfired.', 'wfired.', 'damage.', 'hostile.')
+    fired = {(k[6:] if k.startswith('fired.') else k): v for k, v in counters.items() if k.startswith(FAULT_PREFIXES)}
+    probes = {k: v for k, v in counters.items() if not k.startswith(FAULT_PREFIXES)}
     enumerated = 0
     try:
         r = subprocess.run([os.path.join(BUILD, engine), 'gen', '--prop', prop, '--tier', tier, '--seed', str(seed), '--count', '0'],
